@@ -327,6 +327,28 @@ struct World
       sim::violate("unexpected-throw", n + ": an operation that cannot fail threw");
   }
 
+  // root slots live on the heap (so that ASan sees every stale pointer); their storage belongs to
+  // the harness and is never a fault site - only the tree's constructor runs as code under test
+  template <typename... Args>
+  static std::unique_ptr<Tree> make_tree(Args &&...args)
+  {
+    void *mem = nullptr;
+    {
+      sim::fault::Harness h;
+      mem = ::operator new(sizeof(Tree));
+    }
+    try
+    {
+      return std::unique_ptr<Tree>(new (mem) Tree(std::forward<Args>(args)...));
+    }
+    catch (...)
+    {
+      sim::fault::Harness h;
+      ::operator delete(mem);
+      throw;
+    }
+  }
+
   static Tree::iterator child_it(Tree &t, std::size_t k)
   {
     auto it = t.begin();
@@ -348,9 +370,9 @@ struct World
       sim::Val v(id);
       bool const ok = guarded(n, [&] {
         if (op.get("rv") != 0)
-          sut[fs] = std::make_unique<Tree>(std::move(v));
+          sut[fs] = make_tree(std::move(v));
         else
-          sut[fs] = std::make_unique<Tree>(v);
+          sut[fs] = make_tree(v);
       });
       if (ok)
       {
@@ -483,7 +505,21 @@ struct World
         ctx.probe("root_moved_into_tree");
       }
       else
-        after_fault({a.slot, s}, n);
+      {
+        // basic guarantee: a failing push may already have moved from its rvalue argument; such a
+        // source is consumed (valid, but its value is gone) and is destroyed here
+        if (sut[s]->value().moved_from())
+        {
+          unsigned budget_mf = 4 * MAX_NODES;
+          check_links(*sut[s], nullptr, n + " moved-from source", budget_mf);
+          nothrow(n, [&] { sut[s].reset(); });
+          graveyard.push_back(std::move(model[s]));
+          ctx.probe("failed_push_consumed_its_argument");
+          after_fault({a.slot}, n);
+        }
+        else
+          after_fault({a.slot, s}, n);
+      }
       ctx.ev(n + " at " + std::to_string(ma.id) + " from slot" + std::to_string(s) + (ok ? "" : " threw"));
       return;
     }
@@ -498,12 +534,12 @@ struct World
       bool nothing = false;
       bool const ok = guarded(n, [&] {
         if (n == "release")
-          got = std::make_unique<Tree>(ta.release(child_it(ta, k)));
+          got = make_tree(ta.release(child_it(ta, k)));
         else
         {
           Tree::optional_object r = front ? ta.pop_front() : ta.pop_back();
           if (r.has_value())
-            got = std::make_unique<Tree>(std::move(r.get_unsafe()));
+            got = make_tree(std::move(r.get_unsafe()));
           else
             nothing = true;
         }
@@ -584,18 +620,42 @@ struct World
         if (ties)
           ctx.probe("sort_with_tied_values");
       }
+      bool const descending = op.get("pred") != 0;
       bool const ok = guarded(n, [&] {
-        if (op.get("pred") != 0)
+        if (descending)
           ta.sort([](sim::Val const &x, sim::Val const &y) { return y < x; });
         else
           ta.sort();
       });
       if (ok)
       {
-        if (op.get("pred") != 0)
-          std::stable_sort(ma.ch.begin(), ma.ch.end(), [](auto const &x, auto const &y) { return y->id < x->id; });
-        else
-          std::stable_sort(ma.ch.begin(), ma.ch.end(), [](auto const &x, auto const &y) { return x->id < y->id; });
+        // the children must come out sorted and be a permutation of what was there; the order of
+        // children with EQUAL values is not documented (std::list::sort happens to be stable), so
+        // the model takes the order over from the real tree
+        std::vector<std::unique_ptr<M>> pool = std::move(ma.ch);
+        ma.ch.clear();
+        SIM_CHECK(ta.size() == pool.size(), "shape", "sort changed the number of children of node " + std::to_string(ma.id));
+        long prev = 0;
+        bool first = true;
+        for (Tree const &c : static_cast<Tree const &>(ta))
+        {
+          long const id = c.value().id();
+          SIM_CHECK(first || (descending ? id <= prev : id >= prev), "sort-order", "children of node " + std::to_string(ma.id) + " are not sorted after sort()");
+          prev = id;
+          first = false;
+          std::unique_ptr<M> now = mfrom(c);
+          bool matched = false;
+          for (auto &cand : pool)
+            if (cand && mequal(*cand, *now))
+            {
+              ma.ch.push_back(std::move(cand));
+              matched = true;
+              break;
+            }
+          SIM_CHECK(matched, "shape", "after sort() node " + std::to_string(ma.id) + " has a child (value " + std::to_string(id) + ") that was not there before with that subtree");
+        }
+        for (auto &x : ma.ch)
+          x->parent = &ma;
       }
       else
         after_fault({a.slot}, n);
@@ -656,7 +716,7 @@ struct World
       int const fs = free_slot();
       if (fs < 0 || total_nodes() + mcount(ma) > MAX_NODES)
         return;
-      bool const ok = guarded(n, [&] { sut[fs] = std::make_unique<Tree>(static_cast<Tree const &>(ta)); });
+      bool const ok = guarded(n, [&] { sut[fs] = make_tree(static_cast<Tree const &>(ta)); });
       if (ok)
       {
         model[fs] = mcopy(ma);
@@ -675,7 +735,7 @@ struct World
       if (fs < 0)
         return;
       unsigned const s = a.slot;
-      bool const ok = guarded(n, [&] { sut[fs] = std::make_unique<Tree>(std::move(*sut[s])); });
+      bool const ok = guarded(n, [&] { sut[fs] = make_tree(std::move(*sut[s])); });
       if (!ok)
       {
         SIM_CHECK(!sut[fs], "ctor-threw-but-object-exists", n);
@@ -701,7 +761,7 @@ struct World
       if (fs < 0)
         return;
       long const aid = ma.id;
-      bool const ok = guarded(n, [&] { sut[fs] = std::make_unique<Tree>(std::move(ta)); });
+      bool const ok = guarded(n, [&] { sut[fs] = make_tree(std::move(ta)); });
       if (!ok)
       {
         SIM_CHECK(!sut[fs], "ctor-threw-but-object-exists", n);
@@ -824,11 +884,11 @@ struct World
       Tree const &ca = ta;
       // comparison
       bool eq = false, ne = false;
-      nothrow(n, [&] {
+      bool const cmp_ok = guarded(n, [&] {
         eq = ca == static_cast<Tree const &>(*b.t);
         ne = ca != static_cast<Tree const &>(*b.t);
       });
-      SIM_CHECK(eq == mequal(ma, *b.m) && ne == !eq, "comparison", "node " + std::to_string(ma.id) + " vs " + std::to_string(b.m->id));
+      SIM_CHECK(!cmp_ok || (eq == mequal(ma, *b.m) && ne == !eq), "comparison", "node " + std::to_string(ma.id) + " vs " + std::to_string(b.m->id));
       // front/back
       {
         auto f = ta.front();
